@@ -83,9 +83,10 @@ def make_cases(c):
     cases = gen.corpus()
     quick = c.tier == "quick"
     for n in gen.SIZES:
-        for j, ls in enumerate(gen.shift_sweep(rng, n)):
-            cases.append(("sweep-%d-%d" % (n, j), ls))
-        for j in range(3 if quick else 25):
+        for rep in range(1 if quick else 3):
+            for j, ls in enumerate(gen.shift_sweep(rng, n)):
+                cases.append(("sweep-%d-%d-%d" % (n, rep, j), ls))
+        for j in range(3 if quick else 80):
             cases.append(("b%d-%d" % (n, j), gen.gen_bitset(rng, n, rng.choice([20, 60, 120]))))
     for n in gen.ARRAY_SIZES:
         for j in range(6 if quick else 60):
@@ -95,13 +96,13 @@ def make_cases(c):
         cases.append(("mt-%d" % j, gen.gen_mt(rng, s, 2000 if j < 6 else rng.choice([2000, 2500, 624, 625, 1248]))))
     for j in range(40 if quick else 600):
         cases.append(("pcg-%d" % j, gen.gen_pcg(rng)))
-    sl = gen.sort_lines_exhaustive(6)
+    sl = gen.sort_lines_exhaustive(6 if quick else 7)
     for i in range(0, len(sl), 100):
         cases.append(("sort-ex-%d" % (i // 100), ["sortcase"] + sl[i:i + 100]))
     for j in range(20 if quick else 300):
         cases.append(("sort-r%d" % j, gen.gen_sort_random(rng, 30)))
     if not quick:
-        cases += gen.exhaustive_small(6)
+        cases += gen.exhaustive_small(8)
     return cases
 
 def run(c):
